@@ -41,7 +41,8 @@ Proof.
   - reflexivity.
   - cbn [List.length seq map checkShadowAndAppend_loop1 mark_pass].
     cbv beta iota zeta delta [get_name get_depth get_isShadowed set_isShadowed cload cstore cw_fields cw_new].
-    rewrite ?nth_middle, ?cupd_middle, ?Z.gtb_ltb, ?ltb_of_nat.
+    repeat first [rewrite nth_middle | rewrite cupd_middle]. cbn [f_depth f_name fset_shadowed].
+    rewrite ?Z.gtb_ltb, ?ltb_of_nat.
     repeat (match goal with |- context [if ?b then _ else _] => atom b end;
             cbv beta iota delta [negb andb orb]);
       first [
